@@ -1,8 +1,154 @@
+import NaijaVerif.Model.Proc
 import NaijaVerif.Driver.Util
-/-! Family `proc` — stub (replaced by the unit that owns this family). -/
+
+/-! Line protocol `proc` (one request per line, one answer per line; texts are hex, `-` = empty):
+```
+caps <14 numbers in struct order>   -> ok        limits for the following requests
+new <program>                       -> ok        start a history: ProcessCommand::new
+arg <v> | cwd <v> | env <k> <v> | stdin_text <v> | stdin_inherit | stdin_null
+  | stdout_capture | stdout_inherit | stdout_null | stderr_capture | stderr_inherit | stderr_null
+  | timeout <u32> | clone           -> ok
+timeout_num <n>                     -> ok | refused     script-level `timeout_ms(n)`, n whole
+show                                -> program=… args=[…] cwd=… env=[k=v,…] stdin=… out=… err=… timeout=<n|none>
+validate                            -> ok program=… … timeout=<n> | err <name>
+run <allow:0|1>                     -> denied spawn=0 | invalid <name> spawn=0
+                                       | spawned argv=[…] cwd=… env=[k=v,… sorted by key] stdin=… out=… err=…
+spawn                               -> as `run 1` (the implementation goes through the public API
+                                       instead of a script)
+```
+-/
 namespace NaijaVerif.Driver.ProcD
+open NaijaVerif NaijaVerif.Proc NaijaVerif.Driver
+
+structure St where
+  caps : Caps := { maxProgram := 0, maxCwd := 0, maxArgs := 0, maxArg := 0, maxTotalArg := 0,
+                   maxEnvPairs := 0, maxEnvKey := 0, maxEnvValue := 0, maxTotalEnv := 0, maxStdin := 0,
+                   maxCapture := 0, defaultTimeout := 0, maxTimeout := 0, waitPoll := 0 }
+  cmd  : Option Cmd := none
+
+def hexList (l : List Bytes) : String := "[" ++ ",".intercalate (l.map hex) ++ "]"
+
+def envStr (l : List (Bytes × Bytes)) : String :=
+  "[" ++ ",".intercalate (l.map fun (k, v) => hex k ++ "=" ++ hex v) ++ "]"
+
+def optHex : Option Bytes → String
+  | some b => hex b
+  | none => "none"
+
+def stdinStr : StdinPol → String
+  | .inherit => "inherit"
+  | .null => "null"
+  | .text t => "text:" ++ hex t
+
+def outStr : OutPol → String
+  | .inherit => "inherit"
+  | .null => "null"
+  | .capture => "capture"
+
+def stdioStr : Stdio → String
+  | .inherit => "inherit"
+  | .null => "null"
+  | .piped => "piped"
+
+def errName (e : Err) : String := e.name.replace " " "_"
+
+def showCmd (c : Cmd) : String :=
+  s!"program={hex c.program} args={hexList c.args} cwd={optHex c.cwd} env={envStr c.env} " ++
+  s!"stdin={stdinStr c.stdin} out={outStr c.stdout} err={outStr c.stderr} " ++
+  s!"timeout={match c.timeout with | some t => toString t | none => "none"}"
+
+def showSpec (s : Spec) : String :=
+  s!"program={hex s.program} args={hexList s.args} cwd={optHex s.cwd} env={envStr s.env} " ++
+  s!"stdin={stdinStr s.stdin} out={outStr s.stdout} err={outStr s.stderr} timeout={s.timeout}"
+
+/-- Insertion sort of the pairs by key (bytewise), for the canonical `spawned` line. -/
+def insertByKey (p : Bytes × Bytes) : List (Bytes × Bytes) → List (Bytes × Bytes)
+  | [] => [p]
+  | q :: rest => if Bytes.lt p.1 q.1 then p :: q :: rest else q :: insertByKey p rest
+
+def sortByKey (l : List (Bytes × Bytes)) : List (Bytes × Bytes) := l.foldr insertByKey []
+
+/-- Distinct keys of the `env` calls with the override the child sees for each. -/
+def overrides (c : Command) : List (Bytes × Bytes) :=
+  let keys := (c.envCalls.map Prod.fst).eraseDups
+  keys.filterMap fun k => (c.override k).map fun v => (k, v)
+
+def showCommand (c : Command) : String :=
+  let stdin := match c.stdinData with
+    | some t => stdioStr c.stdin ++ ":" ++ hex t
+    | none => stdioStr c.stdin
+  s!"spawned argv={hexList c.argv} cwd={optHex c.cwd} env={envStr (sortByKey (overrides c))} " ++
+  s!"stdin={stdin} out={stdioStr c.stdout} err={stdioStr c.stderr}"
+
+def runLine (st : St) (allow : Bool) : String :=
+  match st.cmd with
+  | none => "bad-op"
+  | some c =>
+      match (run { allow := allow, caps := st.caps } c { spawns := [] }) with
+      | (.denied, w) => s!"denied spawn={w.spawns.length}"
+      | (.invalid e, w) => s!"invalid {errName e} spawn={w.spawns.length}"
+      | (.spawned cmd, _) => showCommand cmd
+
+def applyOp (st : St) (op : Op) : St × String :=
+  match st.cmd with
+  | some c => ({ st with cmd := some (step c op) }, "ok")
+  | none => (st, "bad-op")
+
+def step1 (st : St) (line : String) : St × String :=
+  match words line with
+  | "caps" :: nums =>
+      match nums.mapM (·.toNat?) with
+      | some [a, b, c, d, e, f, g, h, i, j, k, l, m, n] =>
+          ({ st with caps := { maxProgram := a, maxCwd := b, maxArgs := c, maxArg := d, maxTotalArg := e,
+                               maxEnvPairs := f, maxEnvKey := g, maxEnvValue := h, maxTotalEnv := i,
+                               maxStdin := j, maxCapture := k, defaultTimeout := l, maxTimeout := m,
+                               waitPoll := n } }, "ok")
+      | _ => (st, "bad-op")
+  | ["new", p] =>
+      match unhex p with
+      | some b => ({ st with cmd := some (Cmd.new b) }, "ok")
+      | none => (st, "bad-op")
+  | ["arg", v] => match unhex v with | some b => applyOp st (.arg b) | none => (st, "bad-op")
+  | ["cwd", v] => match unhex v with | some b => applyOp st (.cwd b) | none => (st, "bad-op")
+  | ["env", k, v] =>
+      match unhex k, unhex v with
+      | some kb, some vb => applyOp st (.env kb vb)
+      | _, _ => (st, "bad-op")
+  | ["stdin_text", v] => match unhex v with | some b => applyOp st (.stdinText b) | none => (st, "bad-op")
+  | ["stdin_inherit"] => applyOp st .stdinInherit
+  | ["stdin_null"] => applyOp st .stdinNull
+  | ["stdout_capture"] => applyOp st .stdoutCapture
+  | ["stdout_inherit"] => applyOp st .stdoutInherit
+  | ["stdout_null"] => applyOp st .stdoutNull
+  | ["stderr_capture"] => applyOp st .stderrCapture
+  | ["stderr_inherit"] => applyOp st .stderrInherit
+  | ["stderr_null"] => applyOp st .stderrNull
+  | ["timeout", n] =>
+      match n.toNat? with
+      | some t => if t < u32Lim then applyOp st (.timeout t) else (st, "bad-op")
+      | none => (st, "bad-op")
+  | ["timeout_num", n] =>
+      match n.toNat? with
+      | some k =>
+          match timeoutOfWhole k with
+          | some t => applyOp st (.timeout t)
+          | none => (st, if st.cmd.isSome then "refused" else "bad-op")
+      | none => (st, "bad-op")
+  | ["clone"] => applyOp st .clone
+  | ["show"] => (st, match st.cmd with | some c => showCmd c | none => "bad-op")
+  | ["validate"] =>
+      match st.cmd with
+      | some c =>
+          (st, match validate c st.caps with
+               | .ok s => "ok " ++ showSpec s
+               | .error e => "err " ++ errName e)
+      | none => (st, "bad-op")
+  | ["run", "0"] => (st, runLine st false)
+  | ["run", "1"] => (st, runLine st true)
+  | ["spawn"] => (st, runLine st true)
+  | _ => (st, "bad-op")
 
 def main : IO Unit := do
-  IO.eprintln "family proc: not built yet"
+  loop (← IO.getStdin) (← IO.getStdout) ({} : St) step1
 
 end NaijaVerif.Driver.ProcD
